@@ -2241,7 +2241,7 @@ def _one_info_identifier_required(
 
     else:
         ln, col = next_find(lines, ln, col, end_ln, end_col, prefix, lcont=None)  # must be there, have to search because could be preceded by something (like 'async')
-        ln, col, src = next_find_re(lines, ln, col + len(prefix), end_ln, end_col, re_identifier, lcont=None)  # must be there
+        ln, col, src = next_find_re(lines, ln, col + len(prefix), end_ln, end_col, re_identifier)  # must be there, may be on a following line without a line continuation if enclosed (type_params)
         end_col = col + len(src)
 
     return oneinfo('', None, fstloc(ln, col, ln, end_col))
